@@ -101,6 +101,8 @@ HANDLE GetStdHandle(DWORD id);
 HANDLE CreateFileW(LPCWSTR path, DWORD access, DWORD share, SECURITY_ATTRIBUTES *sa, DWORD disposition, DWORD attributes,
                    HANDLE templ);
 BOOL CloseHandle(HANDLE h);
+#define MB_ERR_INVALID_CHARS 8u
+int MultiByteToWideChar(unsigned cp, DWORD flags, const char *s, int size, wchar_t *out, int n);
 DWORD FormatMessageW(DWORD flags, const void *src, DWORD id, DWORD lang, wchar_t *buf, DWORD size, void *args);
 int WideCharToMultiByte(unsigned cp, DWORD flags, const wchar_t *w, int nw, char *s, int ns, const char *d, BOOL *used);
 
